@@ -165,6 +165,28 @@ func (r *funcRun) ret(st *State, x *ssa.Return) {
 		// cut: later post-conditions may use the earlier ones
 		st.assume(r.evalBool(st, e.Expr, r.old, extra, e.Src))
 	}
+	// ghost variables not named in modifies are left as they were (lock typestate etc.)
+	{
+		mods := map[string]bool{}
+		for _, m := range r.c.Modifies {
+			cmp, _ := splitMod(m)
+			mods[cmp] = true
+		}
+		var gs []string
+		for c := range st.heap {
+			if strings.HasPrefix(c, "Ghost.") && !mods[c] {
+				gs = append(gs, c)
+			}
+		}
+		sort.Strings(gs)
+		for _, comp := range gs {
+			cur := st.heap[comp]
+			old := st.compAt(r.old, comp, st.compSig[comp])
+			if cur != old {
+				r.emit(st, "ghost-frame", "="+comp, []string{"C08", "C09"}, mk(SBool, "(= %s %s)", cur, old), r.c.Src)
+			}
+		}
+	}
 	// frame: components not in modifies are unchanged; components modified "at" some
 	// references are unchanged at every other reference allocated at entry
 	if r.c.HasMod && r.c.Trusted == "" {
@@ -179,7 +201,7 @@ func (r *funcRun) ret(st *State, x *ssa.Return) {
 		}
 		sort.Strings(comps)
 		for _, comp := range comps {
-			if whole[comp] || strings.HasPrefix(comp, "Cell[") || strings.HasPrefix(comp, "IterVisited") {
+			if whole[comp] || strings.HasPrefix(comp, "Cell[") || strings.HasPrefix(comp, "IterVisited") || strings.HasPrefix(comp, "Ghost.") {
 				continue
 			}
 			sig := st.compSig[comp]
@@ -352,10 +374,29 @@ func (r *funcRun) call(st *State, cc *ssa.CallCommon, instr ssa.Instruction, res
 	if callee == "fmt.Errorf" {
 		return r.errorf(st, cc, args)
 	}
+	if callee == "fmt.Sprintf" {
+		if v, ok := r.sprintf(st, cc, args); ok {
+			return v
+		}
+	}
+	if strings.HasPrefix(callee, "(*sync.RWMutex).") || strings.HasPrefix(callee, "(*sync.Mutex).") {
+		if r.lockOp(st, callee, args, instr) {
+			return &TupleVal{}
+		}
+	}
 	if c == nil {
 		// no contract: everything may change, result unconstrained
 		r.note("uncontracted_call " + callee)
 		st.havocAll()
+		if fn := cc.StaticCallee(); (fn != nil && fn.Pkg == r.v.pkg) || callee == "dynamic" {
+			// a function of the package without contract may do anything, also with the locks
+			var gs []string
+			for g := range r.v.spec.GhostVars {
+				gs = append(gs, g)
+			}
+			sort.Strings(gs)
+			st.havocGhosts(gs)
+		}
 		return r.v.freshValue(st, "ret", resT)
 	}
 	if len(names) != len(args) {
@@ -802,6 +843,13 @@ func (r *funcRun) atExit(st *State, ax AtExit, vars map[string]tval) {
 		ctx.fail("atexit target base must be a pointer")
 	}
 	ft, _, ok := ctx.fieldOf(pt.Elem(), sel.Sel.Name)
+	if ok && ax.Var == "" {
+		// scalar ghost field: target := expr
+		tv := ctx.evalStr(ax.Expr)
+		loc := &Loc{Prefix: r.v.structName(pt.Elem()) + "." + sel.Sel.Name, Idx: []Term{base.V.(Term)}, Type: ft}
+		r.v.writeLoc(st, loc, tv.V)
+		return
+	}
 	if !ok || !r.v.ghostArrays[ft] {
 		ctx.fail("atexit target %s is not a ghost array field", ax.Target)
 	}
@@ -922,4 +970,117 @@ func (v *Verifier) structLeaves(name string) []string {
 		return nil
 	}
 	return v.leafComps(name, t)
+}
+
+// lockOp models sync.(RW)Mutex operations on mutexes that are tied to a ghost variable:
+// typestate (C08), non-re-entrancy and lock order (C09).
+func (r *funcRun) lockOp(st *State, callee string, args []Value, instr ssa.Instruction) bool {
+	loc, ok := args[0].(*Loc)
+	if !ok {
+		return false
+	}
+	var lv *LockVar
+	for p, v := range r.v.spec.LockVars {
+		if loc.Prefix == p {
+			lv = v
+		}
+	}
+	if lv == nil {
+		return false
+	}
+	gt := r.ghostTerm(st, lv.Ghost)
+	op := callee[strings.LastIndex(callee, ".")+1:]
+	set := func(v int64) {
+		r.v.writeLoc(st, &Loc{Prefix: "Ghost." + lv.Ghost, Type: types.Typ[types.Int]}, IntLit(v))
+	}
+	switch op {
+	case "Lock", "RLock":
+		// never re-acquire a lock already held (a second RLock behind a queued writer deadlocks)
+		r.emit(st, "lock-not-held", "="+lv.Ghost+"."+op, []string{"C09", "C08"}, Ident(gt, IntLit(0)), r.pos(instr))
+		// lock order (highest rank first): no lock of a lower rank may be held
+		var others []*LockVar
+		for _, o := range r.v.spec.LockVars {
+			others = append(others, o)
+		}
+		sort.Slice(others, func(i, j int) bool { return others[i].Ghost < others[j].Ghost })
+		for _, o := range others {
+			if o.Rank < lv.Rank {
+				r.emit(st, "lock-order", "="+lv.Ghost+"-after-"+o.Ghost, []string{"C09"}, Ident(r.ghostTerm(st, o.Ghost), IntLit(0)), r.pos(instr))
+			}
+		}
+		if op == "Lock" {
+			set(2)
+		} else {
+			set(1)
+		}
+		if acq, ok := r.v.spec.GhostVars["ACQ_"+lv.Ghost]; ok {
+			_ = acq
+			cur := r.ghostTerm(st, "ACQ_"+lv.Ghost)
+			r.v.writeLoc(st, &Loc{Prefix: "Ghost.ACQ_" + lv.Ghost, Type: types.Typ[types.Int]}, Add(cur, IntLit(1)))
+		}
+	case "Unlock":
+		r.emit(st, "unlock-held", "="+lv.Ghost+".Unlock", []string{"C08", "C09"}, Ident(gt, IntLit(2)), r.pos(instr))
+		set(0)
+	case "RUnlock":
+		r.emit(st, "unlock-held", "="+lv.Ghost+".RUnlock", []string{"C08", "C09"}, Ident(gt, IntLit(1)), r.pos(instr))
+		set(0)
+	default:
+		return false
+	}
+	return true
+}
+
+func (r *funcRun) ghostTerm(st *State, name string) Term {
+	return r.v.readLoc(st, nil, &Loc{Prefix: "Ghost." + name, Type: types.Typ[types.Int]}).(Term)
+}
+
+// sprintf models fmt.Sprintf for constant formats made of %s verbs and literal text:
+// the concatenation of the pieces (string operands).
+func (r *funcRun) sprintf(st *State, cc *ssa.CallCommon, args []Value) (Value, bool) {
+	fc, ok := cc.Args[0].(*ssa.Const)
+	if !ok || fc.Value == nil {
+		return nil, false
+	}
+	format := constant.StringVal(fc.Value)
+	sl, ok := args[1].(Term)
+	if !ok || sl.Sort != SSlice {
+		return nil, false
+	}
+	var parts []string
+	lit := ""
+	n := 0
+	for i := 0; i < len(format); i++ {
+		if format[i] == '%' && i+1 < len(format) {
+			switch format[i+1] {
+			case 's':
+				if lit != "" {
+					parts = append(parts, StrLit(lit).S)
+					lit = ""
+				}
+				loc := r.v.elemLoc(SlArr(sl), At(sl, IntLit(int64(n))), tAny)
+				v := r.v.readLoc(st, nil, loc).(Term)
+				parts = append(parts, mk(SStr, "(ite ((_ is VStr) %s) (vstr %s) (strof %s))", v.S, v.S, v.S).S)
+				n++
+				i++
+				continue
+			case '%':
+				lit += "%"
+				i++
+				continue
+			default:
+				return nil, false
+			}
+		}
+		lit += string(format[i])
+	}
+	if lit != "" {
+		parts = append(parts, StrLit(lit).S)
+	}
+	switch len(parts) {
+	case 0:
+		return StrLit(""), true
+	case 1:
+		return Term{S: parts[0], Sort: SStr}, true
+	}
+	return Term{S: "(str.++ " + strings.Join(parts, " ") + ")", Sort: SStr}, true
 }
